@@ -199,9 +199,12 @@ macro_rules! qshapes {
             match shape {
                 1 => ecs_iter_destroy!(w, |$($params)*| caller.step_destroy(<MatchedArchetype as AOps>::IDX, tok(*$e), $direct, $bound)),
                 2 => ecs_iter_destroy!(w, |$($params)*| call_step_destroy(&mut caller, <MatchedArchetype as AOps>::IDX, tok(*$e), $direct, $bound)),
-                _ => ecs_iter_destroy!(w, |$($params)*| match caller.go(<MatchedArchetype as AOps>::IDX, tok(*$e), $direct, $bound).step {
-                    Step::Break => EcsStepDestroy::Break, Step::BreakDestroy => EcsStepDestroy::BreakDestroy,
-                    Step::ContinueDestroy => EcsStepDestroy::ContinueDestroy, Step::Continue => EcsStepDestroy::Continue }),
+                // a closure typed EcsStep inside the destroying macro (converted by From<EcsStep>): it can only
+                // say Continue / Break; the decision function is told so through `plain_step`
+                _ => {
+                    reg::with(|r| r.plain_step = true);
+                    ecs_iter_destroy!(w, |$($params)*| caller.step(<MatchedArchetype as AOps>::IDX, tok(*$e), $direct, $bound))
+                }
             }
         }
     };
